@@ -82,6 +82,10 @@ func scenarios(tier string) []*mcrt.Scenario {
 					Body: func(x *mcrt.X) {
 						obs := &obsT{out: &hsink.Sink{Name: "stdout", Split: split}, sinks: &hsink.Sinks{Split: split}}
 						x.Data = obs
+						// package-level state of the program must not leak from one
+						// execution into the next
+						reportingReadErrors, reportingEventLogWriteErrors, reportingLogWriteErrors = true, true, true
+						eventLogger = nil
 						mcrt.NewDailySink = obs.sinks.New
 						mcrt.Stdin = &hsink.ChunkReader{Data: input, Sizes: sizes, Reset: true}
 						mcrt.Stdout = obs.out
